@@ -60,7 +60,7 @@ type step struct {
 	Pipe     bool   `json:"pipe,omitempty"`
 	Token    string `json:"token,omitempty"`
 	Local    string `json:"-"`
-	Addr     string `json:"addr,omitempty"` // address as sent
+	Addr     string `json:"addr,omitempty"`   // address as sent
 	Domain   string `json:"domain,omitempty"` // clean domain of the address
 	Spelling string `json:"spelling,omitempty"`
 	Invalid  bool   `json:"invalid,omitempty"`
@@ -93,7 +93,7 @@ type scenario struct {
 
 func (sc *scenario) lmtp() bool       { return sc.Kind == "lmtp" }
 func (sc *scenario) submission() bool { return sc.Kind == "submission" }
-func (sc *scenario) modName() string { return sc.Kind }
+func (sc *scenario) modName() string  { return sc.Kind }
 func (sc *scenario) kindTag() string {
 	if sc.Defer {
 		return sc.Kind + "-deferred"
